@@ -407,6 +407,40 @@ class TStr:
             return False
         return bool(ENGINE.facts.has(self, item))
 
+    def _find(self, item, last, a):
+        """str.find / str.rfind of a literal: -1 iff the literal does not occur (the same fact as `in`), else an
+        index with room for the literal; per slice and literal the first occurrence is not after the last."""
+        if a or not isinstance(item, str):
+            raise NotEncodable("find with start/end or a non-literal needle on symbolic text")
+        if item == "":
+            return 0 if not last else self.length()
+        if not self.atoms or not bool(ENGINE.facts.has(self, item)):
+            return -1
+        sg = self.single()
+        if sg is None:
+            raise NotEncodable(f"find in composite text {self}")
+        lo, hi = sg
+        tab = ENGINE.path_state.setdefault("find_pos", {})
+        k = (self.key(), item)
+        if k not in tab:
+            pf, pl = ENGINE.fresh_int("findF"), ENGINE.fresh_int("findL")
+            ENGINE.add(lo <= pf, pf <= pl, pl + len(item) <= hi)
+            tab[k] = (pf, pl)
+        pf, pl = tab[k]
+        return SInt(z3.simplify((pl if last else pf) - lo))
+
+    def find(self, item, *a):
+        return self._find(item, False, a)
+
+    def rfind(self, item, *a):
+        return self._find(item, True, a)
+
+    def index(self, item, *a):
+        r = self._find(item, False, a)
+        if isinstance(r, int) and r == -1:
+            raise ValueError("substring not found")
+        return r
+
     def strip(self, chars=None):
         return ENGINE.facts.strip(self, True, True, chars)
 
@@ -994,6 +1028,18 @@ class Interp:
             if not any(deep_sym(a) for a in args) and not any(deep_sym(a) for a in kwargs.values()):
                 # library code on concrete arguments runs natively
                 return f(*args, **kwargs)
+            if m in ("re", "regex", "regex.regex") and f.__name__ in ("search", "match", "fullmatch", "finditer", "findall", "sub", "split") and getattr(self, "pattern_hook", None) is not None and args and isinstance(args[0], str):
+                # re.finditer(pattern, text) is re.compile(pattern).finditer(text): same hook as for compiled patterns
+                import importlib
+
+                mod = importlib.import_module("re" if m == "re" else "regex")
+                kw = dict(kwargs)
+                flags = kw.pop("flags", 0)
+                rest = list(args[1:])
+                n_subject = 2 if f.__name__ == "sub" else 1
+                if len(rest) > n_subject and not kw and f.__name__ not in ("sub", "split"):
+                    flags = rest.pop()
+                return self.pattern_hook(mod.compile(args[0], flags), f.__name__, tuple(rest), kw)
             raise NotEncodable(f"call to non-repo python function {f.__module__}.{f.__qualname__} with symbolic arguments")
         if isinstance(f, type):
             return self.instantiate(f, args, kwargs)
